@@ -97,6 +97,8 @@ func init() {
 		{"IAll", ifaceOf((*zoo.IAll)(nil))}, {"IC", ifaceOf((*zoo.IC)(nil))}, {"IComp", ifaceOf((*zoo.IComp)(nil))},
 		{"any", ifaceOf((*any)(nil))},
 	}
+	Types["string"] = reflect.TypeOf("")
+	Types["int"] = reflect.TypeOf(0)
 	for _, b := range base {
 		Types[b.n] = b.t
 		SingleTypes = append(SingleTypes, b.n)
